@@ -60,13 +60,31 @@ def check(tier):
     hook = C.Hook()
     g = D.doc_grammar()
     nspec = 12 if tier == "quick" else 30
-    specs = list(L.FIXTURE_SPECS) + [L.gen_spec(rng, ndecl=rng.randint(1, 4)) for _ in range(nspec)]
-    valid = []
+    # identifiers and token names that are prefixes or extensions of the keywords and of the directive names: valid names, every one
+    KEYWORDISH = ["g", "gr", "gra", "gram", "gramm", "gramma", "grammars", "grammar_x", "left", "none", "righ"]
+    keyword_specs = ["grammar k; s = %s; %s = \"a\";" % (w, w) for w in KEYWORDISH] + \
+                    ["grammar k; %s = \"a\" | %s \"b\";" % (w, w) for w in KEYWORDISH[:7]]
+    specs = list(L.FIXTURE_SPECS) + keyword_specs + [L.gen_spec(rng, ndecl=rng.randint(1, 4)) for _ in range(nspec)]
+    ref0 = docref.build_reference()
+    doc0 = Dfa(ref0["start"], docref.compress_edges(ref0["trans"]))
+    dlab0 = lambda q: ref0["labels"].get(q)
+    valid, lex_bad = [], []
     for sp in specs:
         toks, end = L.lex_kinds(hook, sp)
         kinds = [k for k, _ in toks]
+        # a specification the DOCUMENTED scanner reads to the end must be read to the end by the implementation, with the same kinds:
+        # a text refused here has no offending token at all
+        dtoks, dend = max_munch(doc0, dlab0, C.codepoints(sp) + [10])
+        if not (isinstance(dend, list) and dend and dend[0] == "error"):
+            dkinds = [t[0] for t in dtoks]
+            if end != "eof" or kinds != dkinds:
+                r0 = hook.call({"op": "parse_trace", "mode": "parse", "text": sp})
+                lex_bad.append((sp, ((r0.get("error") or {}).get("message", "") or "token kinds %r" % (kinds,))[:300], "expected the token kinds %r and no lexical error" % (dkinds,)))
+                continue
         if end == "eof" and kinds and g.earley(kinds)[0]:
             valid.append((sp, kinds))
+    # the keyword-like names must take part in the text-level sweep below
+    valid.sort(key=lambda v: 0 if v[0] in keyword_specs[:3] + keyword_specs[5:6] else 1)
     # ---- token level: every single-token insertion, deletion, replacement and truncation at every position
     seqs = []
     allk = list(T.terms)
@@ -232,6 +250,10 @@ def check(tier):
         rep.obligation("correspondence: reported error index == Coq driver model on %d token sequences" % len(cases), not badidx)
     rep.obligation("oracle: reported token is the first offending one (exact Earley decision) on %d rejected sequences"
                    % (dist["error_inside"] + dist["error_at_end"]), not oracle_bad)
+    rep.obligation("no lexical error without an offending element: %d specifications the documented scanner reads to the end (keyword-like names included) "
+                   "are read to the end, with the same token kinds" % len(specs), not lex_bad)
+    for text, msg, why in lex_bad[:3]:
+        rep.failure("position", {"position"}, {"input_text": text, "message": msg, "why": why})
     rep.obligation("text level: file:line:column of %d stray/unterminated insertions" % ntext, not text_bad)
     rep.obligation("byte level: file:line:column of %d malformed UTF-8 sequences (after a token, before one, inside layout)" % nbytes, not byte_bad)
     for data, msg, why in byte_bad[:3]:
